@@ -608,3 +608,6 @@ M('C15', 'dense-lattice-wrong-anchor', SAMF, "                (ub, vb, face.b)",
 M('C15', 'dense-lattice-mixed-edges', SAMF, "                (uc, vc, face.c)", "                (uc, vb, face.c)", 'sample_dense:lattice')
 M('C10', 'bisection-bracket-as-fraction', 'src/airfoil/helpers.rs', "    while (positive.fraction - negative.fraction) * ray.dir().norm() > tol {", "    while positive.fraction - negative.fraction > tol {", 'bracket-is-a-length')
 M('C10', 'converge-tangent-signed-distance', 'src/airfoil/edges.rs', "                measured.push(((x - x0).abs(), camber_dir, max_point));", "                measured.push((x - x0, camber_dir, max_point));", 'ConvergeTangentEdge::find_edge:nearest')
+M('C20', 'extend-xs-early-return', CFM, "    let mut uv = Mat::zeros(n_vert, 2);\n\n    // Copy the boundary vertex x values", "    let mut uv = Mat::zeros(n_vert, 2);\n\n    if i_inner.is_empty() {\n        return uv;\n    }\n\n    // Copy the boundary vertex x values", 'calc_extend_uv_xs:every-vertex')
+M('C20', 'extend-xs-wrong-column', CFM, "    for (&i, &v) in i_inner.iter().zip(uv_inner.col_as_slice(0)) {\n        uv[(i as usize, 0)] = v;", "    for (&i, &v) in i_inner.iter().zip(uv_inner.col_as_slice(0)) {\n        uv[(i as usize, 1)] = v;", 'calc_extend_uv_xs:every-vertex')
+M('C18', 'directed-angle-wraps-zero', 'src/geom2/angles2.rs', "    if a < 0.0 {\n        a + 2.0 * PI", "    if a <= 0.0 {\n        a + 2.0 * PI", 'directed_angle:zero-stays-zero')
